@@ -597,6 +597,14 @@ class OutputSchemaBuilder(
             self.aliaser, field.serialization, self.default_conversion
         )(Optional[field.type] if field.none_as_undefined else field.type)
 
+    def _visit_field_type(
+        self, tp: AnyType, conversion: Optional[AnyConversion]
+    ) -> TypeFactory[graphql.GraphQLOutputType]:
+        # flattening only concerns the fields of the flattened object, not their types
+        with context_setter(self):
+            self.get_flattened = None
+            return self.visit_with_conv(tp, conversion)
+
     def _wrap_resolve(self, resolve: Func) -> Func:
         if self.get_flattened is None:
             return resolve
@@ -616,7 +624,7 @@ class OutputSchemaBuilder(
         def resolve(obj, _):
             return partial_serialize(getattr(obj, field_name))
 
-        factory = self.visit_with_conv(field.type, field.serialization)
+        factory = self._visit_field_type(field.type, field.serialization)
         field_schema = get_field_schema(tp, field)
         return lambda: graphql.GraphQLField(
             factory.type,
@@ -691,7 +699,9 @@ class OutputSchemaBuilder(
                     )
 
                 args[self.aliaser(param_field.alias)] = arg_thunk
-        factory = self.visit_with_conv(field.types["return"], field.resolver.conversion)
+        factory = self._visit_field_type(
+            field.types["return"], field.resolver.conversion
+        )
         field_schema = get_method_schema(tp, field.resolver)
         return lambda: graphql.GraphQLField(
             factory.type,
